@@ -142,6 +142,8 @@ func (d vDef) query() string {
 		return fmt.Sprintf(`cdata:"MARK%d;"`, d.N)
 	case "C":
 		return `cdata:"CONV:"`
+	case "E": // parses, but no such converter exists: every search with it fails
+		return `cdata.nope:"x"`
 	case "B": // every capture adds a marker of 6 bytes ("MARKk;") to the client side of a conversation
 		return fmt.Sprintf("cbytes:%d:", 6*d.N-3)
 	case "L":
